@@ -185,6 +185,15 @@ def rule_h2(chk: Check, ir):
             if a.items and any(isinstance(ni.item, Group) and {x.value for al in ni.item.alts for x in walk_alt_items(al) if isinstance(x, Lit)} == {lit, word}
                                for ni in a.items):
                 found = True
+            # the same choice written one level down or flattened: a group (at any depth) whose alternatives start with the two
+            # spellings and are otherwise the same
+            for g in [it for it in walk_alt_items(a) if isinstance(it, Group)]:
+                heads = [al.items[0].item for al in g.alts if al.items]
+                if len(g.alts) == 2 and all(isinstance(h, Lit) for h in heads) and {h.value.strip("'\"") for h in heads} == {lit, word} or \
+                        (len(g.alts) == 2 and all(isinstance(h, Lit) for h in heads) and {h.value for h in heads} == {lit, word}):
+                    rest = [tuple(ni.item.key() for ni in al.items[1:]) for al in g.alts]
+                    if rest[0] == rest[1]:
+                        found = True
         chk.require(found, "H2-placement", f"{lit}=={word}", repo.PARSER_X, f"`{lit}` must be an alternative spelling of `{word}` in the same item")
 
 
